@@ -479,6 +479,74 @@ def r15_10(chk, P):
     return n
 
 
+def r15_11(chk, P):
+    chk.rule('R15.11', 'a buffer that is grown on demand is grown to fit: wherever the encoder tests a need against a capacity field '
+             '(`if(NEED > CAP)` / `>=`), stores a new capacity in the true branch and reallocates with it, the new capacity is at '
+             'least the need that was tested -- as linear forms over the same atoms, new capacity minus need has no negative '
+             'coefficient (counts and sizes are non-negative) -- or the growth is a loop that repeats until the test fails.  A '
+             'capacity that is merely doubled once can still be short of a large request; the loop that follows writes up to the '
+             'need')
+    from rules.c19 import _linform
+    n = 0
+    for F in P.functions():
+        if not any(F.file.endswith(x) for x in ('block.c', 'envelope.c', 'psy.c', 'bitrate.c', 'mapping0.c', 'analysis.c')):
+            continue
+        reallocs = [c for c in F.calls() if F.ex[c]['callee'].get('d') in ('_ogg_realloc', 'realloc')]
+        if not reallocs:
+            continue
+        loops = cfg.loops(F)
+        for b, blk in sorted(F.blocks.items()):
+            t = blk.get('term') or {}
+            c = t.get('cond')
+            if c is None or len(blk['succs']) != 2:
+                continue
+            cn = F.ex[F.strip_casts(c)]
+            if not (cn['k'] == 'bin' and cn['op'] in ('>', '>=')):
+                continue
+            cap = F.ex[F.strip_casts(cn['c'][1])]
+            if cap['k'] != 'member':
+                continue
+            captxt = F.s(F.strip_casts(cn['c'][1]))
+            # stores of the capacity controlled by the true edge of this test, followed by a realloc that reads it
+            stores = []
+            for e in F.nodes('assign'):
+                nd = F.ex[e]
+                if F.s(F.strip_casts(nd['c'][0])) != captxt:
+                    continue
+                if any(cc == c and pol for cc, pol in common.controlling_conditions(F, e)):
+                    stores.append(e)
+            if not stores:
+                continue
+            if not any(captxt in F.s(r_) and cfg.search(F, F.pos[stores[0]], lambda q, r_=r_: q == r_, lambda q: False) is not None for r_ in reallocs):
+                continue
+            need = _linform(F, cn['c'][0], {})
+            looped = b in loops          # `while(need>cap)cap*=2;`
+            ok = looped
+            detail = 'the growth repeats until the test fails' if looped else ''
+            if not looped:
+                e = stores[-1]
+                nd = F.ex[e]
+                new = None
+                if nd['op'] == '=':
+                    new = _linform(F, nd['c'][1], {})
+                elif nd['op'] in ('*=', '+='):
+                    new = None
+                if need is not None and new is not None:
+                    diff = dict(new)
+                    for k_, v in need.items():
+                        diff[k_] = diff.get(k_, 0) - v
+                    ok = all(v >= 0 for v in diff.values())
+                    detail = f'new capacity - need = {({k_: str(v) for k_, v in diff.items() if v != 0}) or 0}'
+                else:
+                    ok = False
+                    detail = f'`{F.s(e)}` is not an expression the need can be compared with'
+            n += 1
+            chk.ob('R15.11', F.name, f'grown-to-fit:{captxt}@{F.loc(c)}', ok, F.where(c),
+                   f'`{F.s(c)}`: {detail}' if ok else
+                   f'`{F.s(c)}`: {detail}: after the branch the capacity can still be below the need the loop behind it writes up to')
+    return n
+
+
 def r15_7(chk, P):
     chk.rule('R15.7', 'a refused control request changes nothing: on every path of vorbis_encode_ctl that ends in a negative return '
              'code no field of the staged set-up (highlevel_encode_setup and its per-block records) has been stored '
@@ -512,6 +580,8 @@ def run(chk, P):
     chk.floor('R15.9', 10)
     r15_10(chk, P)
     chk.floor('R15.10', 2)
+    r15_11(chk, P)
+    chk.floor('R15.11', 2)
     r15_2(chk, P)
     chk.floor('R15.2', 8)
     r15_3(chk, P)
